@@ -17,6 +17,9 @@ from pamqp import (base, body, commands, common, constants, decode, exceptions,
 
 LOGGER = logging.getLogger(__name__)
 UNMARSHAL_FAILURE = 0, 0, None
+# Everything the decode module raises for malformed data: short reads, bad
+# UTF-8 / unknown field types (ValueError), unrepresentable timestamps
+_DECODE_ERRORS = (struct.error, ValueError, OverflowError, OSError)
 
 FrameTypes = typing.Union[base.Frame, body.ContentBody, header.ContentHeader,
                           header.ProtocolHeader, heartbeat.Heartbeat]
@@ -149,7 +152,10 @@ def _unmarshal_method_frame(frame_data: bytes) -> base.Frame:
     :raises: pamqp.exceptions.UnmarshalingException
 
     """
-    bytes_used, method_index = decode.long_int(frame_data[0:4])
+    try:
+        bytes_used, method_index = decode.long_int(frame_data[0:4])
+    except struct.error as error:
+        raise exceptions.UnmarshalingException('Unknown', error)
     try:
         method = commands.INDEX_MAPPING[method_index]()
     except KeyError:
@@ -157,7 +163,7 @@ def _unmarshal_method_frame(frame_data: bytes) -> base.Frame:
             'Unknown', 'Unknown method index: {}'.format(str(method_index)))
     try:
         method.unmarshal(frame_data[bytes_used:])
-    except struct.error as error:
+    except _DECODE_ERRORS as error:
         raise exceptions.UnmarshalingException(method, error)
     return method
 
@@ -171,7 +177,7 @@ def _unmarshal_header_frame(frame_data: bytes) -> header.ContentHeader:
     content_header = header.ContentHeader()
     try:
         content_header.unmarshal(frame_data)
-    except struct.error as error:
+    except _DECODE_ERRORS as error:
         raise exceptions.UnmarshalingException('ContentHeader', error)
     return content_header
 
